@@ -14,6 +14,7 @@ CONSTANTS
   HookCurrent = %(hook)s
   SwapGuarded = %(guard)s
   SupervisorOrClosed = %(guard)s
+  RetryByEpoch = %(guard)s
   AllowClose = %(close)s
 %(view)s
 INVARIANTS %(invs)s
@@ -41,7 +42,7 @@ def write_cfg(name, streams=("S1", "S2"), callers=("P1",), faults=1, dialfails=1
     return name
 
 
-STREAM_OBJ = {"S1": ("U1", "up"), "S2": ("D1", "down"), "S3": ("U2", "up")}
+STREAM_OBJ = {"S1": ("U1", "up"), "S2": ("D1", "down"), "S3": ("U2", "up"), "S8": ("U9", "up"), "S9": ("D9", "down")}
 
 
 def prelude(streams, conn):
@@ -132,7 +133,7 @@ def enumerated(tag, quick):
     for delay in delays:
         for ss in stream_sets:
             for dial in (["ok"], ["fail", "ok"]):
-                for api in ("none", "during", "held"):
+                for api in ("none", "during", "held", "heldOpenDown", "heldOpenUp"):
                     for second in ((False,) if quick and (len(ss) != 2 or api != "none") else (False, True)):
                         conn = {"pingMs": [100, 100], "dialDelayMs": delay}
                         steps = prelude(ss, conn)
@@ -146,14 +147,30 @@ def enumerated(tag, quick):
                             steps += [{"a": "rule", "rule": {"on": "UpstreamMetadata", "nth": 1, "do": "drop"}},
                                       {"a": "sendMeta", "g": "H1", "tag": 7, "ctxMs": 3000},
                                       {"a": "await", "ev": "BRecvReq", "match": {"kind": "UpstreamMetadata", "tag": 7}, "ms": 1000}]
+                        if api == "heldOpenDown":
+                            # an OpenDownstream whose request reached the broker but whose response is lost with the connection: it must be
+                            # re-sent after recovery and the stream must then receive data
+                            steps += [{"a": "rule", "rule": {"on": "DownstreamOpenRequest", "nth": 1, "do": "drop"}},
+                                      {"a": "openDown", "g": "H1", "obj": "D9", "qos": "reliable", "srcs": ["n9"], "ackFlushMs": 20, "ctxMs": 3000},
+                                      {"a": "await", "ev": "BRecvReq", "match": {"kind": "DownstreamOpenRequest", "sid": "d%d" % (2 if "S2" in ss else 1)}, "ms": 1000}]
+                        if api == "heldOpenUp":
+                            nup = len([x for x in ss if STREAM_OBJ[x][1] == "up"]) + 1
+                            steps += [{"a": "rule", "rule": {"on": "UpstreamOpenRequest", "nth": 1, "do": "drop"}},
+                                      {"a": "openUp", "g": "H1", "obj": "U9", "qos": "reliable", "ctxMs": 3000, "closeTimeoutMs": 1500},
+                                      {"a": "await", "ev": "BRecvReq", "match": {"kind": "UpstreamOpenRequest", "session": "U9"}, "ms": 1000}]
                         steps.append({"a": "cut"})
                         if api == "during":
+                            # requests issued while the transport is dead but the loss is not yet detected: they are interrupted by the outage
                             steps += [{"a": "sleep", "ms": 5}, {"a": "sendMeta", "g": "P1", "tag": 5, "ctxMs": 3000},
-                                      {"a": "openUp", "g": "P2", "obj": "U9", "qos": "unreliable", "ctxMs": 3000}]
+                                      {"a": "openUp", "g": "P2", "obj": "U9", "qos": "unreliable", "ctxMs": 3000, "closeTimeoutMs": 1500},
+                                      {"a": "openDown", "g": "P3", "obj": "D9", "qos": "reliable", "srcs": ["n9"], "ackFlushMs": 20, "ctxMs": 3000}]
                         steps.append({"a": "await", "ev": "Reconnected", "n": 1, "ms": 4000})
                         if second:
                             steps += [{"a": "sleep", "ms": 3 if delay == 0 else 60}, {"a": "cut"}, {"a": "await", "ev": "Reconnected", "n": 2, "ms": 4000}]
-                        steps += [{"a": "sleep", "ms": 250}] + probes(ss) + teardown(ss)
+                        allss = tuple(ss) + (("S8", "S9") if api == "during" else ("S9",) if api == "heldOpenDown" else ("S8",) if api == "heldOpenUp" else ())
+                        if api in ("heldOpenDown", "heldOpenUp"):
+                            steps.append({"a": "join", "obj": "H1"})
+                        steps += [{"a": "sleep", "ms": 250}] + probes(allss) + teardown(allss)
                         scs.append({"id": "%s/enum/d%d/%s/%s/%s/%s" % (tag, delay, "+".join(ss) or "none", "-".join(dial), api, "2nd" if second else "1"),
                                     "kind": "iscp", "conn": conn, "steps": steps})
     return scs
